@@ -4,7 +4,7 @@ The list is committed; this script only documents how it was produced."""
 import itertools, os
 out = []
 def inst(s, g, l, nr, nw, bar, deps, newr, neww):
-    dn = {'None': '0', 'One': '1', 'Two': '2', 'TwoEqual': '2e'}[deps]
+    dn = {'None': '0', 'One': '1', 'Two': '2', 'TwoEqual': '2e', 'ThreeAba': '3aba'}[deps]
     name = f"step_s{s}g{g}l{l}_r{nr}w{nw}_b{bar}_d{dn}_n{newr}{neww}"
     unw = max(s, g, l, nr + nw, newr, neww, 2) + 3
     out.append(f"    {name} : {s}, {g}, {l}, {nr}, {nw}, {bar}, Deps::{deps}, {newr}, {neww}, {unw}")
@@ -13,8 +13,8 @@ shapes_t = [(1,2,2),(1,3,1),(3,1,1),(2,2,2),(1,1,3),(1,1,4),(1,2,4),(2,1,2),(3,2
 for (s,g,l) in shapes_q + shapes_t:
     bars = sorted(set([0, max(s-1,0), s]))
     for bar in bars:
-        for deps in ['None','One','Two','TwoEqual']:
-            if deps == 'Two' and s*g*l < 2: continue
+        for deps in ['None','One','Two','TwoEqual','ThreeAba']:
+            if deps in ('Two','ThreeAba') and s*g*l < 2: continue
             inst(s,g,l,1,1,bar,deps,1,1)
 # richer access sets on the small shapes
 for (s,g,l) in [(1,2,1),(2,1,1),(2,2,1)]:
